@@ -8,11 +8,11 @@ package c01
 
 import (
 	"encoding/json"
-	"time"
 	"fmt"
 	"os"
 	"path/filepath"
 	"strings"
+	"time"
 
 	"verif/harness/internal/core"
 	"verif/harness/internal/ld"
@@ -22,7 +22,7 @@ func init() {
 	core.Register(&core.Spec{
 		ID:    "C01",
 		Level: "fault_enumeration",
-		Rule: "W1: every attribute path derived from the tested tree's schema/compose-spec.json (every property, oneOf arm and array level of service/network/volume/secret/config/include) and every node of loader/full-example.yml, the node replaced by each of 18 YAML node kinds, loaded alone / as override / as base / extended in the same file / extended from another file / included, under the default options, every single Skip*/Resolve option (thorough: all pairs and a sample of all 512 combinations); W2: seeded byte/token mutations of a corpus; W3: alias, merge-key, extends, include and depends_on cycles (every digraph with a cycle on <=4 services) which must be errors; W4: generated multi-file projects with every subset of their referenced files removed, each single file replaced by a directory / dangling symlink (thorough: made unreadable with strace fault injection): must fail naming a missing file unless only optional env files are missing; W5: deep nesting, long extends chains, many services, huge scalars; W6: histories of 200 (thorough 1500) loads of distinct file names in one worker process (per-process state must not make a later load crash, block or fail). Every load runs in a worker process watched for death, CPU budget (30/60 CPU-s per case) and resident memory. Non-trivial = the mutated/faulted input differs from its valid carrier; distinct = distinct (files, options).",
+		Rule:  "W1: every attribute path derived from the tested tree's schema/compose-spec.json (every property, oneOf arm and array level of service/network/volume/secret/config/include) and every node of loader/full-example.yml, the node replaced by each of 18 YAML node kinds, loaded alone / as override / as base / extended in the same file / extended from another file / included, under the default options, every single Skip*/Resolve option (thorough: all pairs and a sample of all 512 combinations); W2: seeded byte/token mutations of a corpus; W3: alias, merge-key, extends, include and depends_on cycles (every digraph with a cycle on <=4 services) which must be errors; W4: generated multi-file projects with every subset of their referenced files removed, each single file replaced by a directory / dangling symlink (thorough: made unreadable with strace fault injection): must fail naming a missing file unless only optional env files are missing; W5: deep nesting, long extends chains, many services, huge scalars; W6: histories of 200 (thorough 1500) loads of distinct file names in one worker process (per-process state must not make a later load crash, block or fail). Every load runs in a worker process watched for death, CPU budget (30/60 CPU-s per case) and resident memory. Non-trivial = the mutated/faulted input differs from its valid carrier; distinct = distinct (files, options).",
 		Assumptions: []string{
 			"'never loops forever' is restated as a CPU-time budget per load (quick 30 s, thorough 60 s; an ordinary load takes about 10 ms and the slowest stress case of W5 about 3 CPU-s on this tree)",
 			"crash sites are identified by the first compose-go frame of the panic stack and the panic class, without line numbers",
@@ -80,12 +80,12 @@ func pairs() []ld.Opts {
 
 // expectation attached to a load.
 type expect struct {
-	MustFail   bool     `json:"must_fail,omitempty"`   // planted cycle
-	MustName   []string `json:"must_name,omitempty"`   // error must contain one of these base names
-	MustLoad   bool     `json:"must_load,omitempty"`   // only optional files missing
-	Why        string   `json:"why,omitempty"`
-	Generic    string   `json:"generic,omitempty"` // generic attribute path (coverage / attrs)
-	Workload   string   `json:"workload"`
+	MustFail bool     `json:"must_fail,omitempty"` // planted cycle
+	MustName []string `json:"must_name,omitempty"` // error must contain one of these base names
+	MustLoad bool     `json:"must_load,omitempty"` // only optional files missing
+	Why      string   `json:"why,omitempty"`
+	Generic  string   `json:"generic,omitempty"` // generic attribute path (coverage / attrs)
+	Workload string   `json:"workload"`
 }
 
 type replayCase struct {
